@@ -24,12 +24,14 @@ import (
 	"sync"
 	"sync/atomic"
 	"testing/synctest"
+	"time"
 
 	"github.com/refraction-networking/uquic/internal/flowcontrol"
 	"github.com/refraction-networking/uquic/internal/monotime"
 	"github.com/refraction-networking/uquic/internal/protocol"
 	"github.com/refraction-networking/uquic/internal/qerr"
 	"github.com/refraction-networking/uquic/internal/utils"
+	"github.com/refraction-networking/uquic/internal/verifhook"
 	"github.com/refraction-networking/uquic/internal/wire"
 )
 
@@ -79,7 +81,7 @@ func (o c15Op) String() string {
 	switch o.K {
 	case "tp":
 		return fmt.Sprintf("tp(bidi=%d,uni=%d)", o.N, o.W)
-	case "max", "jump":
+	case "max", "jump", "jsync":
 		return fmt.Sprintf("%s(%s,%d)", o.K, ty, o.N)
 	case "race":
 		return fmt.Sprintf("race(%s,%d,%s)", ty, o.N, [...]string{"cancel-first", "credit-first"}[o.W&1])
@@ -551,7 +553,7 @@ func (r *c15Run) applicable(op c15Op) bool {
 		return op.W >= 0 && op.W < len(r.out[t].waiters)
 	case "race":
 		return !r.closed && len(r.out[t].waiters) > 0 && op.N > 0
-	case "jump":
+	case "jump", "jsync":
 		return !r.lenient() && op.N > 0 && op.N <= len(r.out[t].waiters)
 	case "tp", "max", "frame":
 		return !r.closed
@@ -747,6 +749,33 @@ func (r *c15Run) step(op c15Op) bool {
 		}
 		w := c15Want{created: r.serveWaiters(t)}
 		// Either SetMaxStream (callers remain blocked) or the failing Open reports the new limit, once.
+		w.add(c15WantBlocked(t, newMax, false))
+		r.checkEffects(w)
+	case "jsync":
+		// Credit for (some of) the queued callers arrives, and a new OpenStreamSync caller arrives while
+		// the woken head caller has not yet taken the map's lock again (it is parked at the schedule
+		// point streams.openSync.afterWake for 1 ms of virtual time).  The newcomer came last: it
+		// must queue behind all of them (N <= number of callers, so no credit is left over for it).
+		newMax := o.peerMax + op.N
+		verifhook.SetAction("streams.openSync.afterWake", func(string) { time.Sleep(time.Millisecond) })
+		r.m.HandleMaxStreamsFrame(&wire.MaxStreamsFrame{Type: r.stype(t), MaxStreamNum: protocol.StreamNum(newMax)})
+		c := r.spawn(t, false)
+		early := c.done.Load() && c.ok
+		time.Sleep(time.Duration(len(o.waiters)+3) * time.Millisecond)
+		verifhook.SetAction("streams.openSync.afterWake", nil)
+		synctest.Wait()
+		o.peerMax = newMax
+		r.cnt("credit_raised")
+		r.cnt("sync_arrived_in_wake_window")
+		if early {
+			r.fail("C15|outgoing|sync-order", "OpenStreamSync arriving right after MAX_STREAMS(+%d) returned stream %d at once although %d OpenStreamSync callers were queued before it", op.N, c.id, len(o.waiters))
+			r.reap(c)
+			break
+		}
+		o.waiters = append(o.waiters, c)
+		r.st["max:queue"] = max(r.st["max:queue"], int64(len(o.waiters)))
+		w := c15Want{created: r.serveWaiters(t)}
+		// Either SetMaxStream (callers remain blocked) or the queued newcomer reports the new limit, once.
 		w.add(c15WantBlocked(t, newMax, false))
 		r.checkEffects(w)
 	case "acc", "bacc":
